@@ -295,7 +295,7 @@ CONV = [('i32', 'i8'), ('i32', 'u8'), ('u32', 'i8'), ('i16', 'u16'), ('u16', 'i1
 
 
 QUICK = [('i8', 'i8'), ('u8', 'u8'), ('u16', 'u16'), ('i32', 'i32'), ('u32', 'u32'), ('i64', 'i64'), ('u64', 'u64'),
-         ('i32', 'u32'), ('u64', 'i32'), ('i16', 'i64'), ('i128', 'i128')]
+         ('i32', 'u32'), ('u64', 'i32'), ('i16', 'i64'), ('i64', 'i32'), ('i128', 'i128')]
 
 
 def op_instances(thorough):
